@@ -36,7 +36,7 @@ TECHNIQUE = (
     "exhaustive enumeration of step terms (9 leaves, Sequence / Parallel / ExclusiveParallel to nesting depth 2-3) x "
     "weight vectors over {0,1,2,3}^k and 5/5/90 x population sizes 2-7 x requested sizes x iterable form of the input, "
     "applied with the real steps on a stub representation (random answers explored by E1 with a deviation bound); all "
-    "initialisers; real GP runs observed per generation through a recorder"
+    "initialisers; real GP runs observed per generation through a recorder; one combinator object whose weights change between generations (every ordered pair of 6 weight vectors x 4 ways of changing them), the library's weight-changing combinators on a population / one-shot iterator / after a selection step; initialisers on grammars of minimum depth 1-3"
 )
 RULE = (
     "case = (step term, weights, population size n, requested k <= n, iterable form); oracle len(list(step.apply(..))) == k; "
